@@ -28,6 +28,7 @@ from xmlschema.translation import gettext as _
 from xmlschema.utils.qnames import get_qname, get_extended_qname
 from xmlschema.aliases import ElementType, SchemaType, NsmapType, AtomicValueType, \
     BaseXsdType, SchemaElementType, SchemaAttributeType
+from xmlschema import _verif_trace
 from .helpers import parse_xpath_default_namespace
 from ..xpath import IdentityXPathParser, XPathElement, XMLSchemaProxy
 
@@ -372,6 +373,9 @@ class IdentityCounter:
         self.elem = elem
         self.enabled = True
         self.elements = None
+        if _verif_trace.ENABLED:
+            _verif_trace.emit('ident.reset', identity=identity.name, kind=identity.__class__.__name__,
+                              counter=id(self), new=True)
 
     def __repr__(self) -> str:
         return "%s%r" % (self.__class__.__name__[:-7], self.counter)
@@ -381,9 +385,15 @@ class IdentityCounter:
         self.elem = elem
         self.enabled = True
         self.elements = None
+        if _verif_trace.ENABLED:
+            _verif_trace.emit('ident.reset', identity=self.identity.name,
+                              kind=self.identity.__class__.__name__, counter=id(self), new=False)
 
     def increase(self, fields: IdentityCounterType) -> None:
         self.counter[fields] += 1
+        if _verif_trace.ENABLED:
+            _verif_trace.emit('ident.add', identity=self.identity.name, counter=id(self),
+                              fields=[str(x) for x in fields], count=self.counter[fields])
         if self.counter[fields] == 2:
             msg = _("duplicated value {0!r} for {1!r}")
             raise XMLSchemaValueError(msg.format(fields, self.identity))
@@ -399,6 +409,9 @@ class KeyrefCounter(IdentityCounter):
 
     def increase(self, fields: IdentityCounterType) -> None:
         self.counter[fields] += 1
+        if _verif_trace.ENABLED:
+            _verif_trace.emit('ident.add', identity=self.identity.name, counter=id(self),
+                              fields=[str(x) for x in fields], count=self.counter[fields])
 
     def iter_errors(self, identities: dict[XsdIdentity, IdentityCounter]) \
             -> Iterator[XMLSchemaValueError]:
@@ -406,6 +419,11 @@ class KeyrefCounter(IdentityCounter):
             return  # don't validate with an unbuilt keyref
 
         refer_values = identities[self.refer].counter
+        if _verif_trace.ENABLED:
+            _verif_trace.emit('ident.resolve', identity=self.identity.name, counter=id(self),
+                              refer=id(identities[self.refer]),
+                              dangling=sum(1 for x in self.counter if x not in refer_values
+                                           and not (len(x) == 1 and x[0] in refer_values)))
 
         for v in filter(lambda x: x not in refer_values, self.counter):
             if len(v) == 1 and v[0] in refer_values:
